@@ -192,10 +192,44 @@ func init() {
 				}
 			}
 		}
+		// the other wait points: ready (base case of Inv_act), next (street change / settlement), start
+		maxFlowN := 3
+		if tier == "thorough" {
+			maxFlowN = 4
+		}
+		for n := 2; n <= maxFlowN; n++ {
+			for d := 0; d < n; d++ {
+				if tier != "thorough" && n == 3 && d == 2 {
+					continue
+				}
+				for layout := 0; layout <= 2; layout++ {
+					if n == 2 && layout == 1 {
+						continue
+					}
+					if tier != "thorough" && layout == 2 && d > 0 {
+						continue
+					}
+					for street := 0; street < 4; street++ {
+						js = append(js, sym.Job{Pkg: "", Harness: "Harness_Ready", Args: []int{n, d, layout, street}})
+						if tier != "thorough" && n == 3 && (layout != 0 || d > 0) && street == 2 {
+							continue
+						}
+						js = append(js, sym.Job{Pkg: "", Harness: "Harness_Next", Args: []int{n, d, layout, street}})
+					}
+				}
+			}
+		}
+		for n := 0; n <= 3; n++ {
+			for wd := 0; wd <= 1; wd++ {
+				for wk := 0; wk <= 1; wk++ {
+					js = append(js, sym.Job{Pkg: "", Harness: "Harness_Start", Args: []int{n, wd, wk}})
+				}
+			}
+		}
 		return js
 	}
 	actBounds := func(tier string) []string {
-		b := []string{"wait point: RoundStarted with seat cur to act, every street, every seat to act, every operation of {fold, check, call, allin, bet(x), raise(x), pass, pay(x)} by every seat", "state: every chip account, fold/acted flag, stake and raise size symbolic under Inv_act (I1, I2, turn-structure A/J, >=2 seats alive, >=1 with chips), amounts < 2^40; bet/raise/pay amount: every int64", "layouts: dealer/sb/bb, dead small blind, dealer-blind; limit no / pot"}
+		b := []string{"wait points ReadyRequested (every street) + ReadyForAll, RoundClosed (every street) + Next incl. settlement and the closed hand, Start() on symbolic options; every dealer seat (quick: n=3 dealer 0,1)", "wait point: RoundStarted with seat cur to act, every street, every seat to act, every operation of {fold, check, call, allin, bet(x), raise(x), pass, pay(x)} by every seat", "state: every chip account, fold/acted flag, stake and raise size symbolic under Inv_act (I1, I2, turn-structure A/J, >=2 seats alive, >=1 with chips), amounts < 2^40; bet/raise/pay amount: every int64", "layouts: dealer/sb/bb, dead small blind, dealer-blind; limit no / pot"}
 		if tier == "thorough" {
 			return append(b, "n in 2..4 seats")
 		}
@@ -203,7 +237,7 @@ func init() {
 	}
 	actOutside := []string{"more than 4 seats", "chip amounts >= 2^40 in the state (the amount argument itself is unrestricted)", "states violating Inv_act (its inductiveness is part of the check: C05.inv-* assertions; base case: the ready/next harnesses)", "exported engine plumbing (SetCurrentPlayer, BecomeRaiser, Deal, Burn, EmitEvent, LoadState, Resume) is not in the operation alphabet"}
 	actCovers := func(tier string) []string {
-		return []string{"act.continues", "act.closes", "act.refused-size", "act.amount-moderate", "act.amount-extreme"}
+		return []string{"act.continues", "act.closes", "act.refused-size", "act.amount-moderate", "act.amount-extreme", "ready.betting-opens", "ready.closes-at-once", "next.betting-street", "next.run-out", "next.showdown", "next.last-player-standing", "start.accepted", "start.refused"}
 	}
 	actAssume := append([]string{"time.Now modelled as an arbitrary int64 (only UpdatedAt depends on it)", "state snapshot/equality for the refusal clauses: deep copy and reflect.DeepEqual-style equality in the executor, JSON equality in native replays"}, commonAssumptions...)
 	for _, pr := range []struct{ id, expl string }{
@@ -226,5 +260,50 @@ func init() {
 			Explanation:  "inductive step harness Harness_Act over the real engine code (player.go, game.go, event.go): " + pr.expl,
 		}
 		register(spec)
+	}
+
+	// ---- seat manager: C08 C17 C18 ----
+	smJobs := func(tier string) []sym.Job {
+		var js []sym.Job
+		maxSeats := 4
+		if tier == "thorough" {
+			maxSeats = 6
+		}
+		for mx := 2; mx <= maxSeats; mx++ {
+			js = append(js, sym.Job{Pkg: "seat_manager", Harness: "Harness_SM_Next", Args: []int{mx}})
+			for op := 0; op < 5; op++ {
+				if mx > 5 && op == 1 {
+					continue
+				}
+				js = append(js, sym.Job{Pkg: "seat_manager", Harness: "Harness_SM_Op", Args: []int{mx, op}})
+			}
+		}
+		k := 4
+		if tier == "thorough" {
+			k = 5
+		}
+		js = append(js, sym.Job{Pkg: "seat_manager", Harness: "Harness_SM_Unroll", Args: []int{3, k}})
+		js = append(js, sym.Job{Pkg: "seat_manager", Harness: "Harness_SM_Unroll", Args: []int{2, k + 1}})
+		return js
+	}
+	smBounds := func(tier string) []string {
+		mx := "2..4"
+		if tier == "thorough" {
+			mx = "2..6"
+		}
+		return []string{"table sizes " + mx + "; every occupancy pattern, dealer and big-blind seat; IsActive / IsReserved of every seat symbolic under Inv_SM (inactive seats only strictly between dealer and big blind; dealer != big blind)", "operations: Next, Join(seat), Join(-1), Seat, Reserve, Leave with unconstrained integer arguments, one step from every such state; Join(-1): rand.Intn arbitrary, map order 'rotations'", "unrolling from NewSeatManager: 3 seats x 4 ops (thorough 5), 2 seats x 5 ops (thorough 6) over {Join, Seat, Reserve, Leave, Next}"}
+	}
+	smOutside := []string{"tables of more than 6 seats", "true goroutine interleavings and the Go memory model: the concurrency clause is decided by the lock-coverage obligation (every access to seat-manager state inside Join/Leave/Seat/Reserve/Next happens while sm.mu is write-held, so racing calls are atomic and equal some sequential order)", "unlocked accessors (Dealer, SetDealer, ApplyStates, ...) are not in the property's alphabet", "states violating Inv_SM (inductiveness is asserted: C08.inv-*)"}
+	smAssume := append([]string{"sync.RWMutex modelled by ghost lock state (Lock on a held mutex = self-deadlock outcome)", "math/rand.Intn(n) returns an arbitrary value in [0,n)"}, commonAssumptions...)
+	smCovers := func(tier string) []string {
+		return []string{"sm.button-moves", "sm.heads-up", "sm.three-or-more", "sm.late-joiner-in", "sm.late-joiner-waits", "sm.next-refused", "sm.join-ok", "sm.join-refused", "sm.join-any-ok", "sm.join-any-full", "sm.leave-ok", "sm.leave-refused", "sm.arg-far", "sm.unroll-next-ok"}
+	}
+	for _, pr := range []struct{ id, expl string }{
+		{"C08", "positions after a successful Next() on the post-state; late-joiner clause by one inductive step with a ghost pending seat"},
+		{"C17", "button movement and the refusal clause for Next() from every Inv_SM state"},
+		{"C18", "double booking, counts, refusals, no panic for unconstrained integer arguments, lock coverage"},
+	} {
+		register(&PropSpec{ID: pr.id, Pkgs: []string{"seat_manager"}, Jobs: smJobs, AssertPrefix: []string{pr.id + "."}, Covers: smCovers, Bounds: smBounds, Outside: smOutside, Assumptions: smAssume,
+			Explanation: "seat_manager.SeatManager executed symbolically one operation at a time from arbitrary invariant-satisfying states: " + pr.expl})
 	}
 }
